@@ -27,7 +27,7 @@ RUNS = {"quick": 12000, "thorough": 300000}
 WALL = {"quick": 200, "thorough": 2400}
 RULE = ("scenario = population (1-8 taxa, taxa groups present or not), additive model (1-3 traits), nenv 1-4, nrep scalar or per environment (1-3), "
         "variance setting (all zero | no error | general; scalar or per trait, zeros mixed in), optional set_h2/set_H2 target, generator kind; then "
-        "phenotype() and MeanPhenotypicBreedingValue.estimate() on the row-shuffled table with genotype taxa permuted, subsetted and extended by "
+        "phenotype() and MeanPhenotypicBreedingValue.estimate() on the row-shuffled table with genotype taxa permuted, subsetted, repeated and extended by "
         "unphenotyped taxa; distinct = (variance class, nenv, nrep form, h2 step, label presence, genotype-taxa transformation); non-trivial = table produced")
 COMPONENTS = {"real": ["G_E_Phenotyping (phenotype, set_h2, set_H2)", "MeanPhenotypicBreedingValue.estimate", "DenseAdditiveLinearGenomicModel.gegv/var_A/var_G", "pandas groupby/mean"],
               "stub": ["generator subclass recording multivariate_normal requests (sim.rngseam)"]}
